@@ -322,13 +322,24 @@ class ODisk(Shape):
         dp = d - (d @ s.n) * s.n
         return float(s.c @ d + s.r * np.linalg.norm(dp))
 
+    def _basis(s):
+        if not hasattr(s, "_xy"):
+            a = np.eye(3)[int(np.argmin(np.abs(s.n)))]
+            x = np.cross(s.n, a); x /= np.linalg.norm(x)
+            y = np.cross(s.n, x); y /= np.linalg.norm(y)
+            s._xy = (x, y)
+        return s._xy
+
     def sup(s, d):
+        # built from an in-plane basis so that the returned point is a rim point of the disk
+        # (feasible) even when d is almost parallel to the normal
         d = np.asarray(d, float)
-        dp = d - (d @ s.n) * s.n
-        nn = np.linalg.norm(dp)
+        x, y = s._basis()
+        q0, q1 = float(x @ d), float(y @ d)
+        nn = math.hypot(q0, q1)
         if nn < 1e-300:
             return s.c.copy()
-        return s.c + s.r * dp / nn
+        return s.c + (s.r * q0 / nn) * x + (s.r * q1 / nn) * y
 
     def dist(s, p):
         v = p - s.c; z = float(v @ s.n); rho = float(np.linalg.norm(v - z * s.n))
@@ -608,3 +619,54 @@ def scene_L(oracles, extra_points=()):
     for p in extra_points:
         L = max(L, float(np.linalg.norm(p)))
     return L
+
+
+def extents(spec):
+    """principal extents (largest first) of the shape, from its parameters (SVD for vertex sets)"""
+    k = spec["kind"]
+    if k == "margin":
+        e = extents(spec["base"])
+        return [x + 2 * spec["m"] for x in e]
+    if k == "sphere":
+        e = [2 * spec["r"]] * 3
+    elif k == "box":
+        e = list(np.asarray(spec["size"], float))
+    elif k == "ellipsoid":
+        e = list(2 * np.asarray(spec["radii"], float))
+    elif k == "capsule":
+        e = [spec["h"] + 2 * spec["r"], 2 * spec["r"], 2 * spec["r"]]
+    elif k == "cylinder":
+        e = [spec["l"], 2 * spec["r"], 2 * spec["r"]]
+    elif k == "cone":
+        e = [spec["h"], 2 * spec["r"], 2 * spec["r"]]
+    elif k == "disk":
+        e = [2 * spec["r"], 2 * spec["r"], 0.0]
+    elif k == "ellipse":
+        e = list(2 * np.asarray(spec["radii"], float)) + [0.0]
+    else:
+        V = np.asarray(spec["V"], float)
+        V = V - V.mean(axis=0)
+        if len(V) < 2:
+            e = [0.0, 0.0, 0.0]
+        else:
+            sv = np.linalg.svd(V, compute_uv=False)
+            sv = list(sv) + [0.0] * (3 - len(sv))
+            # singular values -> approximate extents of the point cloud
+            e = [float(2 * x / math.sqrt(max(1, len(V)) / 3.0)) for x in sv[:3]]
+    return sorted([float(x) for x in e], reverse=True)
+
+
+def aspect(spec):
+    """largest / smallest non-zero principal extent (1 for a sphere); flat directions are ignored"""
+    e = [x for x in extents(spec) if x > 0]
+    if len(e) < 2:
+        return 1.0
+    return e[0] / e[-1]
+
+
+def aspect_bucket(a):
+    if a < 10:
+        return "<10"
+    if a < 100:
+        return "10-100"
+    return ">=100"
